@@ -27,5 +27,9 @@ try:
             print("   TOOL:", r.stdout[-600:])
 finally:
     sh("git -C /repo checkout -- . && git -C /repo clean -fdq -- src tests")
+    sh("git -C /verif checkout -- evidence")   # evidence describes the unchanged tree only
     print("repo restored:", sh("git -C /repo status --porcelain").stdout.strip() or "clean")
-json.dump(res, open(os.path.join(d, "last_run.json"), "w"), indent=1)
+p = os.path.join(d, "last_run.json")
+old = json.load(open(p)) if os.path.exists(p) else {}
+old.update(res)
+json.dump(old, open(p, "w"), indent=1)
